@@ -40,6 +40,45 @@ Theorem C11_preimage_injective :
 Proof. exact preimage_injective. Qed.
 Print Assumptions C11_preimage_injective.
 
+(* and the subject octets determine the subject: a document (up to line-ending canonicalisation in
+   text mode), a key with a user id or attribute, a pair of keys -- so two different signed objects
+   never share a pre-image *)
+Theorem C11_subject_document_determined :
+  forall sigv tm d d',
+    subject_bytes sigv (SDoc tm d) = subject_bytes sigv (SDoc tm d') ->
+    if tm then canon d = canon d' else d = d'.
+Proof. exact subject_doc_inj. Qed.
+Print Assumptions C11_subject_document_determined.
+
+Theorem C11_subject_key_and_id_determined :
+  forall sigv kv kb idtag id kv' kb' idtag' id',
+    4 <= sigv ->
+    (kv = 6 -> lenN kb < 4294967296) -> (kv <> 6 -> lenN kb < 65536) ->
+    (kv' = 6 -> lenN kb' < 4294967296) -> (kv' <> 6 -> lenN kb' < 65536) ->
+    lenN id < 4294967296 -> lenN id' < 4294967296 ->
+    subject_bytes sigv (SKeyId kv kb idtag id) = subject_bytes sigv (SKeyId kv' kb' idtag' id') ->
+    (kv =? 6) = (kv' =? 6) /\ kb = kb' /\ id_prefix idtag = id_prefix idtag' /\ id = id'.
+Proof. exact subject_keyid_inj. Qed.
+Print Assumptions C11_subject_key_and_id_determined.
+
+Theorem C11_subject_key_pair_determined :
+  forall sigv kv1 b1 kv2 b2 kv1' b1' kv2' b2',
+    (kv1 = 6 -> lenN b1 < 4294967296) -> (kv1 <> 6 -> lenN b1 < 65536) ->
+    (kv1' = 6 -> lenN b1' < 4294967296) -> (kv1' <> 6 -> lenN b1' < 65536) ->
+    (kv2 = 6 -> lenN b2 < 4294967296) -> (kv2 <> 6 -> lenN b2 < 65536) ->
+    (kv2' = 6 -> lenN b2' < 4294967296) -> (kv2' <> 6 -> lenN b2' < 65536) ->
+    subject_bytes sigv (SKeys kv1 b1 kv2 b2) = subject_bytes sigv (SKeys kv1' b1' kv2' b2') ->
+    b1 = b1' /\ b2 = b2'.
+Proof. exact subject_keys_inj. Qed.
+Print Assumptions C11_subject_key_pair_determined.
+
+(* v3 signatures hash the user id bare: the v4 framing octets are absent (the difference a reader must honour) *)
+Theorem C11_v3_id_is_hashed_bare :
+  forall kv kb idtag id typ created,
+    preimage_v3 typ created (SKeyId kv kb idtag id) = key_frame kv kb ++ id ++ [n2b typ] ++ be32 created.
+Proof. intros. unfold preimage_v3. cbn [subject_bytes]. replace (4 <=? 3) with false by reflexivity. rewrite <- !app_assoc. reflexivity. Qed.
+Print Assumptions C11_v3_id_is_hashed_bare.
+
 (* non-vacuity *)
 Example C11_ex_params : params_ok 6 8 [x05; x02; x00; x00; x00; x00] (repeat x07 16).
 Proof. unfold params_ok. repeat split; intros; try discriminate; try reflexivity; auto. Qed.
